@@ -38,6 +38,7 @@ import (
 	"google.golang.org/grpc/metadata"
 	"google.golang.org/grpc/status"
 	"google.golang.org/protobuf/proto"
+	"google.golang.org/protobuf/types/known/anypb"
 	"google.golang.org/protobuf/types/known/durationpb"
 	"google.golang.org/protobuf/types/known/emptypb"
 
@@ -328,9 +329,17 @@ func (w *World) invKey(label string) invocation.Key {
 	if k, ok := w.invKeys[label]; ok {
 		return k
 	}
-	// Keys must be protojson of an Any; reuse what the real
-	// extractors produce.
-	k := invocation.Key(fmt.Sprintf(`{"@type":"type.googleapis.com/build.bazel.remote.execution.v2.RequestMetadata","toolInvocationId":%q}`, label))
+	// Keys are protojson of an Any, produced by the same function the
+	// server uses when it resolves invocation names (its whitespace is
+	// not stable across binaries, so it must not be written by hand).
+	any, err := anypb.New(&remoteexecution.RequestMetadata{ToolInvocationId: label})
+	if err != nil {
+		panic(err)
+	}
+	k, err := invocation.NewKey(any)
+	if err != nil {
+		panic(err)
+	}
 	w.invKeys[label] = k
 	w.invLabels[string(k)] = label
 	return k
@@ -1162,7 +1171,7 @@ func (w *World) Listing() {
 		for _, inv := range q.Invocations {
 			name := w.invocationName(q, inv.Path)
 			ev := common.Ev{"ev": "listing", "what": "invocation", "queue": qi, "path": w.pathLabels(inv.Path), "ok": true,
-				"ops": []string{}, "children": []string{}, "all": []string{}, "active": []string{},
+				"ops": []string{}, "paged": []string{}, "children": []string{}, "all": []string{}, "active": []string{},
 				"executing": 0, "idle": 0, "idle_sync": 0, "queued_direct": 0, "queued_indirect": 0, "n_children": 0, "n_queued_children": 0, "n_active_children": 0}
 			r, err := w.bq.ListQueuedOperations(ctx, &buildqueuestate.ListQueuedOperationsRequest{InvocationName: name, PageSize: 1000})
 			if err != nil {
